@@ -327,6 +327,10 @@ func (t *trzszTransfer) recvPrefixHash(writer fileWriter, srcFile *sourceFile, t
 	if err := file.Truncate(matchStep); err != nil {
 		return err
 	}
+	// the sender goes on from the offset IT derived from the answers it received; if an answer
+	// was lost or altered on the way the two offsets differ, and neither the size nor the digest
+	// of the data that follows would show it: remember what the rest must measure
+	t.resumeRestSize = size - matchStep
 	return nil
 }
 
